@@ -18,6 +18,7 @@ import jax
 import jax.numpy as jnp
 
 from . import poly as P
+from .paths import REPO as _REPO
 from .poly import Poly
 from . import jxinterp as JI
 from . import smt
@@ -36,7 +37,7 @@ class LineCov:
     def __enter__(self):
         try:
             import coverage
-            self.cov = coverage.Coverage(data_file=None, include=["/repo/jinns/*"], config_file=False)
+            self.cov = coverage.Coverage(data_file=None, include=[_REPO + "/jinns/*"], config_file=False)
             self.cov.start()
         except Exception:
             self.cov = None
@@ -58,7 +59,7 @@ def _merge_lines(res, lines):
     cur = res.setdefault("lines", {})
     for f, ls in lines.items():
         cur[f] = sorted(set(cur.get(f, [])) | set(ls))
-REPLAYS = os.path.join(VERIF, "replays")
+REPLAYS = os.environ.get("VERIF_REPLAYS") or os.path.join(VERIF, "replays")
 
 
 @dataclasses.dataclass
@@ -683,7 +684,7 @@ def _from_checker(e):
         if "site-packages" not in fn and not fn.startswith("<") and "/lib/python" not in fn:
             last = fn
         tb = tb.tb_next
-    return last is None or not last.startswith("/repo/")
+    return last is None or not last.startswith(_REPO + "/")
 
 
 def _cut(p, n=400):
